@@ -7,6 +7,7 @@ Driver entries of the lifecycle group (C09).
      r s b t     run / reset / reboot (both stores) / teardown      (R S B T are read the same)
      a0 a1       let the thread leave its parking place and advance to the next one; the digit is
                  what run_condition() returns if the thread is parked inside that call
+     b1 b2       reboot() split at schedule point 6 (between `reset_ = true` and `run_ = false`, mutex held)
      u           spurious wake-up of the condition wait
      jw          as j, with wait() called while the thread is still held (it must not return early)
      j           let the thread run freely (run_condition() = false from now on) and join it
@@ -117,11 +118,23 @@ def freeRun (cfg : Cfg) (c : Bool) : Nat → T → T
 structure Run where
   t : T
   pending : List Cmd := []
+  /-- an advance made while the thread's next move needs the mutex held by an unfinished reboot() -/
+  padv : Option Bool := none
   out : Array String := #[]
   hung : Bool := false
 
 def runTok (cfg : Cfg) (r : Run) (tok : String) : Option Run :=
   let n0 := r.t.s.hist.length
+  if tok == "b1" then
+    let t1 := r.t.step cfg (.c .reboot)
+    some { r with t := t1, out := r.out.push (obs tok t1.s n0) }
+  else if tok == "b2" then
+    let t1 := r.t.step cfg .fin
+    let t2 := match r.padv with
+      | some c => advance cfg t1 c
+      | none => t1
+    some { r with t := t2, padv := none, out := r.out.push (obs tok t2.s n0) }
+  else
   match cmdOf tok with
   | some x =>
     if r.t.s.pc == .blocking && needsMutex cfg x then
@@ -130,7 +143,9 @@ def runTok (cfg : Cfg) (r : Run) (tok : String) : Option Run :=
       let t' := applyCmd cfg r.t x
       some { r with t := t', out := r.out.push (obs tok t'.s n0) }
   | none =>
-    if tok == "a0" || tok == "a1" then
+    if (tok == "a0" || tok == "a1") && r.t.s.mid && (r.t.s.pc == .preWait || (r.t.s.pc == .waiting && r.t.s.woken)) then
+      some { r with padv := some (r.padv.getD (tok == "a1")), out := r.out.push (obs tok r.t.s n0) }
+    else if tok == "a0" || tok == "a1" then
       let t1 := advance cfg r.t (tok == "a1")
       let t2 := r.pending.foldl (applyCmd cfg) t1
       some { r with t := t2, pending := [], out := r.out.push (obs tok t2.s n0) }
